@@ -377,7 +377,7 @@ pub fn exec(rest: &str, out: &mut Out) -> (String, bool) {
             let d = match crate::probe::parse_sd(a[1]) { Some(d) => d, None => return ("bad-op".into(), false) };
             match json_syntax::to_value(&d) { Ok(v) => (format!("ok {}", show_value(&v)), true), Err(e) => (show_ser_err(&e), true) }
         }
-        ("rt", _) | ("de", _) | ("fromvalm", _) => crate::probe::exec(&a, out),
+        ("rt", _) | ("de", _) | ("fromvalm", _) | ("fromobj", _) => crate::probe::exec(&a, out),
         ("sj", 2) => {
             let v = match parse_value(a[1]) { Some(v) => v, None => return ("bad-op".into(), false) };
             // json-syntax -> serde_json -> json-syntax
